@@ -642,24 +642,54 @@ def first_failure(one):
     return one["n"], kind
 
 
-def classify(item, style, cls, rc, stmts, one, clause, reason):
-    """deterministic class of a case for a clause: names the input shape (never values/messages)."""
-    part = item[0]
+def net_effect(prefix: str) -> bool:
+    """Does a prefix of list statements, all of which succeeded, leave a state different from the start?
+    (tiny model used only to name classes: u/s act on the session at once; i/c/m are transactional; a transaction
+    left open counts as an effect)"""
+    tx = pend = eff = False
+    for k in prefix:
+        if k in "us":
+            eff = True
+        elif k in "icm":
+            if tx:
+                pend = True
+            else:
+                eff = True
+        elif k == "b":
+            tx = True
+        elif k in "rk" and tx:
+            eff = eff or (k == "k" and pend)
+            pend = tx = False
+    return eff or tx
+
+
+def class_key(clause, item, one, rc=True):
+    """Deterministic class of a case for a clause, or None if the clause cannot be evaluated for the case.
+    Names the input shape (template / literal id / statement kind / where the list fails), never values or
+    messages.  What one-by-one execution did (index and kind of the first failing statement) is part of the shape."""
     idx, fkind = first_failure(one)
+    part = item[0]
+    if clause in ("C16.count", "C16.result", "C16.literal") and fkind != "none":
+        return None  # cursors are not returned when a statement fails
+    if clause == "C16.result" and not rc:
+        return None
+    if clause == "C16.literal" and (part != "LIT" or TEMPLATES[item[1]][2] is None or not rc):
+        return None
     if part == "LIT":
-        _, tid, lid, tail = item
-        return f"tmpl={tid},lit={lid}"
-    if part == "LIST":
-        seq = item[1]
-        if fkind == "none":
-            return f"list:no-failure,stmts={''.join(sorted(set(seq)))}"
-        before = "effect-before" if any(k in EFFECTFUL for k in seq[:idx]) else "no-effect-before"
-        # a statement that cannot be parsed: is it the first failing statement, does it come later, or is there none
-        unparsable = "none" if "x" not in seq else "first-failure" if seq.index("x") == idx else "after-first-failure"
-        return f"list:unparsable={unparsable},{before}"
+        return f"tmpl={item[1]},lit={item[2]}"
     if part == "KIND":
         return f"kind={item[1]}"
-    raise AssertionError(item)
+    if part != "LIST":
+        raise AssertionError(item)
+    seq = item[1]
+    if clause == "C16.failure":
+        # a statement that cannot be parsed: is it the first failing statement, does it come later, or is there none
+        unparsable = "none" if "x" not in seq else "first-failure" if seq.index("x") == idx else "after-first-failure"
+        return f"list:unparsable={unparsable}"
+    if clause == "C16.digest":
+        before = "effect-before" if net_effect(seq if idx is None else seq[:idx]) else "no-effect-before"
+        return f"list:unparsable={'present' if 'x' in seq else 'none'},{before}"
+    return "list:no-failure"
 
 
 def report(acc, item, style, cls, rc, stmts, text, one, bad, tier):
@@ -672,8 +702,7 @@ def report(acc, item, style, cls, rc, stmts, text, one, bad, tier):
             continue
         failed.setdefault(clause, (reason, detail))
     for clause in CLAUSES:
-        k = classify(item, style, cls, rc, stmts, one, clause, None)
-        k = refine(clause, k, item, style, cls, rc, one)
+        k = class_key(clause, item, one, rc)
         if k is None:
             continue
         acc.member(clause, k, clause in failed)
@@ -686,21 +715,6 @@ def report(acc, item, style, cls, rc, stmts, text, one, bad, tier):
                 {"part": "text", "item": list(item), "statements": stmts, "text": text, "cursor_class": cls,
                  "return_cursors": rc, "views": item[0] == "KIND", "tier": tier},
             )  # fmt: skip
-
-
-def refine(clause, k, item, style, cls, rc, one):
-    """clause-specific applicability / refinement of the class key (kept in one place so that classes stay
-    homogeneous: a clause that cannot be evaluated for a case has no member there)."""
-    idx, fkind = first_failure(one)
-    part = item[0]
-    if clause in ("C16.count", "C16.result", "C16.literal") and fkind != "none":
-        return None  # cursors are not returned when a statement fails
-    if clause == "C16.result" and not rc:
-        return None
-    if clause == "C16.literal":
-        if part != "LIT" or TEMPLATES[item[1]][2] is None or not rc:
-            return None
-    return k
 
 
 # ---- EMPTY ----------------------------------------------------------------------------------------------------------
